@@ -14,14 +14,14 @@ CHECKS = {
     "C01": (True, "SSA constructor-agreement, aliasing/provenance, cursor-pairing and buffer-ownership rules (CTOR, CLAMP, RET-SELF, ALIAS, CURSOR-PAIR, PROV through helper parameters, BUF-FORWARD, PAD-START, LINE-COMPLETE, LINECOUNT-STEP, WS-SPEC)",
             "Necessary structural conditions of lossless tiling: the in-memory constructor initialises the same machine as the streaming one, Source aliases the caller's buffer through a capacity-clamped slice, every prefix cut of the buffer is paired with offset/line/index updates, offset/line addends derive from unpaddedNullLength/lineCount of the prefix cut (also through helper parameters), the buffer only moves forward or to a fresh allocation (so returned Source slices are never overwritten), padNulls examines only newly read bytes, lineCount's per-byte step (or closed form) counts LF, CR and CRLF once each, a line is complete only behind an LF, an available look-ahead byte or end of input, and no Unicode-white-space function is applied to document text. Does not decide range ordering or the arithmetic inside the helpers.",
             "go/types + go/ssa; field-based origin abstraction; helper arithmetic trusted"),
-    "C02": (True, "SSA provenance rule on the root-block cut (ROOT-CUT) and completeness/delta rules on the re-basing of carried-over blocks (REBASE, with BSET path-conditioning on node kinds)",
-            "Two necessary conditions only: a root block's Source is cut exactly at the end of the span of the block it carries (so the root span ends at len(Source)), and blocks carried over to the next call have the Start and End of every block and inline span shifted, for nodes of every kind, by minus the length that was cut. Validity, nesting, sibling order and character alignment of all other spans are arithmetic over loop-computed offsets and are not decided.",
+    "C02": (True, "SSA provenance rule on the root-block cut (ROOT-CUT), completeness/delta rules on the re-basing of carried-over blocks (REBASE, with BSET path-conditioning on node kinds), finite-domain reachability of multi-byte advances (CHAR-ADVANCE), value-flow rule on len(source) (SPAN-LEN), must-pass-through rule for the line cursor after multi-line scanners (RESYNC)",
+            "Five necessary conditions: a root block's Source is cut exactly at the end of the span of the block it carries (so the root span ends at len(Source)); blocks carried over to the next call have the Start and End of every block and inline span shifted, for nodes of every kind, by minus the length that was cut; a position that reaches a span boundary is advanced by a constant of two or more only over bytes known to be ASCII (character boundaries); the length of the whole root source never becomes a boundary of an inline span (nesting); after a scanner that may stop on a later line the line cursor is stored before the tokenizer moves on (no overlapping siblings). Validity, nesting, sibling order and character alignment of all other spans are arithmetic over loop-computed offsets and are not decided.",
             "go/ssa def-use; access paths compared structurally (go/ssa has no CSE)"),
-    "C04": (True, "SSA latch/provenance proof that Parse's panic is unreachable (interprocedural latch dataflow), definite-divergence and reader-exit loop rules, relative-advance and index-guard rules, finite-domain unreachability, lineParser typestate, child-arity backing",
-            "Structural parts of totality: Parse cannot reach panic(err) (latch + provenance), errors returned by Render/Format/NextBlock originate from the reader/writer, no loop has a state-preserving cycle (LOOP-D) or an end-of-input-blind reader cycle (LOOP-N), hand-advanced scan indices only move relative to themselves (ADVANCE-REL), cursor and look-ahead reads are dominated by a bound on that index (INDEX-GUARD), explicit unreachable-defaults are unreachable over finite domains, lineParser API state guards cannot fire from any block rule, positional child accesses are backed by producer guarantees. Implicit bounds/nil panics and progress-making loop termination are not decided.",
+    "C04": (True, "SSA latch/provenance proof that Parse's panic is unreachable (interprocedural latch dataflow), definite-divergence and reader-exit loop rules, relative-advance and index-guard rules (byte slices and strings), NUL replacement phase range (NUL-RANGE), finite-domain unreachability, lineParser typestate, child-arity backing",
+            "Structural parts of totality: Parse cannot reach panic(err) (latch + provenance), errors returned by Render/Format/NextBlock originate from the reader/writer, no loop has a state-preserving cycle (LOOP-D) or an end-of-input-blind reader cycle (LOOP-N), hand-advanced scan indices only move relative to themselves (ADVANCE-REL), cursor and look-ahead reads of byte slices and strings are dominated by a bound on that index (INDEX-GUARD), the field indexing the NUL replacement string stays inside it on every reader step (NUL-RANGE), explicit unreachable-defaults are unreachable over finite domains, lineParser API state guards cannot fire from any block rule, positional child accesses are backed by producer guarantees. Implicit bounds/nil panics and progress-making loop termination are not decided.",
             "go/ssa CFG and dominators; BSET finite-domain propagation; idempotent reader methods list"),
-    "C05": (True, "BSET containment matrix, constant-kind open-call audit, marker-first path rule, construction-sequence enumeration against the documented child grammar (through constructor helpers), leaf-kind path conditioning, link-deactivation and unparsed-reuse rules",
-            "Structural parts of the node grammar: lists contain only items and items occur only in lists, every item starts with a marker, reference definitions/links/images/autolinks are built with the documented child sequences on every construction path, leaf blocks receive only their verbatim leaf kinds (every leaf addLineText creates, per container kind), list/item delimiter agreement; necessary conditions of 'no link in link' (every earlier opener below the finished link is deactivated, for all flag values) and of 'no unparsed node remains' (a line-list node is attached only where it cannot be Unparsed). The full delimiter-stack dependent clauses and numeric accessor ranges are not decided.",
+    "C05": (True, "BSET containment matrix, constant-kind open-call audit, marker-first path rule, construction-sequence enumeration against the documented child grammar (through constructor helpers), leaf-kind path conditioning, link-deactivation, unparsed-reuse / unparsed-scan and list-tightness agreement rules",
+            "Structural parts of the node grammar: lists contain only items and items occur only in lists, every item starts with a marker, reference definitions/links/images/autolinks are built with the documented child sequences on every construction path, leaf blocks receive only their verbatim leaf kinds (every leaf addLineText creates, per container kind), list/item delimiter agreement, items receive the list's own tightness on every iteration (LOOSE-AGREE); necessary conditions of 'no link in link' (every earlier opener below the finished link is deactivated, for all flag values) and of 'no unparsed node remains' (a line-list node is attached only where it cannot be Unparsed; Rewrite's pending-text test answers true for any child of kind Unparsed, whatever else holds). The full delimiter-stack dependent clauses and numeric accessor ranges are not decided.",
             "go/ssa; grammar tables transcribed from the kinds' doc comments"),
     "C07": (True, "HTML lexer-state typestate + escape taint over every append to the render buffer (HTX-L, HTX-T, HTX-RAW, ESC-SET per byte value, VOCAB, CHARREF-ALPHABET, WALK-WIRING)",
             "Every byte appended to the output buffer is part of a constant skeleton the HTML lexer accepts as quoted start/end tags with constant names, or dynamic text that passed a sanitiser adequate for its lexical context, or one of two verbatim leaf kinds (the character-reference recogniser's alphabet is decided, the soft-break span is assumed); the Walk callbacks pass the emitters' verdicts on unchanged, so every opened element is closed. Holds for all inputs and configurations because the state set carries all configurations.",
@@ -32,20 +32,20 @@ CHECKS = {
     "C10": (True, "per-kind outcome tables of the renderer callbacks (HTX-KIND/PAIR) against the documented mapping, text provenance, write-effect analysis of the read path, block-join provenance",
             "Structural parts of canonical serialisation: for every node kind and configuration the sequence of tags/constants/dynamic classes emitted equals the documented mapping and pre/post are paired; dynamic text comes from the visited node's accessors and is escaped; rendering writes only call-local memory and has no nondeterminism source; Render joins AppendBlock results with the blank-line separator in slice order. Byte-for-byte equality with an independent serialiser is not decided.",
             "oracle tables transcribed from doc comments and the CommonMark HTML mapping; EFF external-callee table"),
-    "C11": (True, "exact finite-domain equivalence check of the opener-search cache key against the match predicate (EMPH-KX) and an invariant dataflow for saved-index staleness (EMPH-S)",
-            "Two necessary conditions for the openers_bottom optimisation to be behaviour-preserving: closers that share a search-bound slot are treated identically by the match predicate for every opener (exhaustive over type x tested flag bits x run length mod 3), and the invariant 'every saved bound <= V' is maintained across every deletion from the stack before any bound is read. The algorithm's result itself is value-level and not decided.",
+    "C11": (True, "exact finite-domain equivalence check of the opener-search cache key against the match predicate (EMPH-KX) an invariant dataflow for saved-index staleness (EMPH-S), exact flanking truth table and match predicate against the specification (EMPH-FLANK, EMPH-P), neighbour-fetch conditions by enumeration of length orderings (EMPH-EDGE)",
+            "The flanking clause (classifier sets, the 2x3x3 truth table, neighbours decoded exactly when they exist and from exactly source[:Start] / source[End:], stand-ins are whitespace) and the multiple-of-3 clause (match predicate equals rules 9/10) are decided exactly; plus two necessary conditions for the openers_bottom optimisation to be behaviour-preserving: closers that share a search-bound slot are treated identically by the match predicate for every opener (exhaustive over type x tested flag bits x run length mod 3), and the invariant 'every saved bound <= V' is maintained across every deletion from the stack before any bound is read. The algorithm's result itself is value-level and not decided.",
             "go/ssa; both functions are evaluated over the finite domain on the SSA graph after checking run lengths are only used modulo 3"),
-    "C12": (True, "SSA dominance/provenance rules: first-wins guard, match-before-reference, single normaliser, two-pass order, document-order traversal",
-            "Structural parts: Extract never overwrites an existing key, every node made a reference is dominated by a successful MatchReference of the same key, every stored key/ref is produced by the one normaliser, definitions are extracted before inlines are rewritten, containers are descended in document order. The normaliser's own Unicode semantics and label recognition are not decided.",
+    "C12": (True, "SSA dominance/provenance rules: first-wins guard, match-before-reference, single normaliser, two-pass order, document-order traversal; label bytes only through the NUL-mapping reader (NORM-READER) whose replacement phase is an inductive invariant checked per step over a finite abstraction (NULVIEW)",
+            "Structural parts: Extract never overwrites an existing key, every node made a reference is dominated by a successful MatchReference of the same key, every stored key/ref is produced by the one normaliser, definitions are extracted before inlines are rewritten, containers are descended in document order, label bytes reach the normaliser only through the reader that presents NUL padding as U+FFFD, and that reader keeps the replacement phase right on every step (so keys are UTF-8 and a NUL matches U+FFFD). The normaliser's own Unicode semantics and label recognition are not decided.",
             "go/ssa dominators and def-use"),
-    "C14": (True, "typed-AST decision symmetry rule for LF/CR (SYM) with two structurally recognised exemptions, and arm-shadowing enumeration (SYM-DEAD)",
-            "Necessary condition of line-ending independence: every decision in package commonmark that classifies an input byte against LF classifies the same operand against CR (directly or via a predicate whose BSET accept set has both), except CRLF look-ahead and IndexAny-derived indices. Equivalence of the two arms, padding and final-newline clauses are not decided.",
+    "C14": (True, "typed-AST decision symmetry rule for LF/CR (SYM, byte tests and string needles) with two structurally recognised exemptions, arm-shadowing enumeration (SYM-DEAD), loop-state rule for per-byte line-ending counting (LE-COUNT), length pre-filter thresholds against the shortest instance of each block construct (MINLEN)",
+            "Necessary conditions of line-ending and final-newline independence: per-byte line-ending state in a loop is CRLF-aware (LE-COUNT); no length pre-filter rejects the shortest instance of a block construct, which only occurs without a final line ending (MINLEN); every decision in package commonmark that classifies an input byte against LF classifies the same operand against CR (directly or via a predicate whose BSET accept set has both), except CRLF look-ahead and IndexAny-derived indices. Equivalence of the two arms, padding and final-newline clauses are not decided.",
             "go/types typed syntax; BSET accept sets of helper predicates"),
-    "C15": (True, "exact accept sets of byte/rune classifiers by finite-domain set propagation over SSA (BSET), compared with sets transcribed from CommonMark 0.30 / RFC 3986; numeric limits of the recognisers (SPEC-BOUNDS, loop counters by iteration count); full-span scans (SPAN-SCAN)",
+    "C15": (True, "exact accept sets of byte/rune classifiers by finite-domain set propagation over SSA (BSET), compared with sets transcribed from CommonMark 0.30 / RFC 3986; numeric limits of the recognisers (SPEC-BOUNDS, loop counters by iteration count); full-span scans (SPAN-SCAN); white-space scope rules incl. ordered comparisons that lump control bytes with the space (WS-SPEC); length pre-filter thresholds (MINLEN)",
             "For each of the 9 byte/rune classifiers and 2 byte maps the exact accept set / mapping over all 256 bytes resp. all 1,114,112 code points equals the spec's definition; NormalizeURI's constant safe set is within RFC 3986 reserved ∪ unreserved and every byte it writes is '%', a urlHexDigit result or a rune guarded by the safe-set test. The numeric limits of the recognisers equal the specification's numbers and span-validating loops cover the whole span; the recognisers' languages, the e-mail recogniser and URI idempotence are loop automata and are not decided.",
             "go/ssa; Unicode tables of the Go standard library; oracle sets transcribed in checker/c15.go"),
-    "C16": (True, "who-may-store rules: no store into InlineParser fields after construction (INLINE-STATELESS), inline-phase working types are scratch in the write-effect analysis and line-parser pointers never leave locals (PHASE-SCRATCH)",
-            "Necessary condition only: no hidden state survives a root-block boundary — the inline parser remembers nothing between Rewrite calls and the per-line / per-paragraph working state never outlives the call that made it, so what a block is parsed with is its own text, the reference matcher and the BlockParser's cursor fields. That closing a block at end of input equals closing it because of the next line (per block rule) is behavioural and not decided.",
+    "C16": (True, "inductive phase invariant of the NUL-mapping reader (NULVIEW) and who-may-store rules: no store into InlineParser fields after construction (INLINE-STATELESS), inline-phase working types are scratch in the write-effect analysis and line-parser pointers never leave locals (PHASE-SCRATCH)",
+            "Necessary conditions only: text scanned before the NUL padding is filled in reads the same as after (the reader presents padding as U+FFFD in phase), and no hidden state survives a root-block boundary — the inline parser remembers nothing between Rewrite calls and the per-line / per-paragraph working state never outlives the call that made it, so what a block is parsed with is its own text, the reference matcher and the BlockParser's cursor fields. That closing a block at end of input equals closing it because of the next line (per block rule) is behavioural and not decided.",
             "EFF scratch-type computation; go/ssa stores"),
     "C17": (True, "who-may-emit-markup rule over all appends (HTX-EMIT), filterRaw provenance over its helper family, transition-table extraction of its skip states (FR-AUTOMATON), tag-open set and first-'>' jump target (FR-TAGSKIP), tag-name terminator set (TAGNAME-SET), lower-casing, transient-name and nil-filter rules, BSET superset check of the GFM predicate",
             "Emitter-side clauses: every tag the renderer itself writes goes through the FilterTag-consulting emitters, filterRaw appends only sub-slices of its input or the constant &lt;, FilterTag arguments are lower-cased names, FilterTagGFM rejects at least the nine GFM raw-text elements, no filtering branch is taken with a nil predicate, and filterRaw's scanner never skips further than an HTML tokenizer would: skip states end at the tokenizer's construct ends, a jump over a tag starts only at a byte that opens markup and lands on the first '>', the measured tag name stops at every tokenizer terminator, and the lower-cased name is never kept. Equality of the two languages beyond that is not decided.",
